@@ -28,9 +28,11 @@ for (name, m), normalize, custom in itertools.product(masks(), (True, False), (F
         with a.case({'mask': name, 'modes': modes, 'normalize': normalize, 'custom': custom}):
             c = rng.normal(size=len(modes))
             basis = lentil.zernike_basis(m, modes, normalize=normalize, rho=rho, theta=theta)
-            opd = np.einsum('i,ijk->jk', c, basis)
+            # the surface is built mode by mode, so coefficient k belongs to modes[k] whatever the basis does
+            single = [lentil.zernike(m, j, normalize=normalize, rho=rho, theta=theta) for j in modes]
+            opd = sum(ck * zk for ck, zk in zip(c, single))
             got = lentil.zernike_fit(opd, m, modes, normalize=normalize, rho=rho, theta=theta)
-            ok = np.allclose(got, c, atol=1e-9)
+            ok = np.allclose(got, c, atol=1e-9) and np.shape(basis) == np.shape(single) and np.allclose(basis, single, atol=1e-12)
             if normalize:
                 other = opd + 0.3 * lentil.zernike(m, 6 if 6 not in modes else 13, rho=rho, theta=theta)
                 r1 = lentil.zernike_remove(other, m, modes, rho=rho, theta=theta)
